@@ -12,23 +12,35 @@ Definition rad (t : R) : R := t * ((1 / 180) * PI).
 Lemma rad_is_pi_180 t : rad t = t * PI / 180.
 Proof. unfold rad. field. Qed.
 
+Lemma rad_0 : rad 0 = 0.
+Proof. unfold rad. ring. Qed.
+
+(* recognise the conversion of a variable t however the product is written, and fold it into  rad t  *)
+Ltac fold_rad t :=
+  try (replace (t * (1 / 180 * PI)) with (rad t) by reflexivity);
+  try (replace (1 / 180 * PI * t) with (rad t) by (unfold rad; ring));
+  try (replace (t * (PI / 180)) with (rad t) by (unfold rad; field));
+  try (replace (PI / 180 * t) with (rad t) by (unfold rad; field));
+  try (replace (t / 2 * (1 / 180 * PI)) with (rad t / 2) by (unfold rad; field));
+  try (replace (1 / 180 * PI * (t / 2)) with (rad t / 2) by (unfold rad; field)).
+
 Ltac zeros := repeat match goal with
   | E : ?t = 0 |- _ => is_var t; subst t
   | E : 0 = ?t |- _ => is_var t; subst t end.
-Ltac units_leaf := zeros; whole_turns; rewrite ?Rmult_0_l, ?cos_0, ?sin_0; val_eq; ring.
-Ltac units_proof := cbv zeta; unfold Rx, Ry, Rz, rad; unfold_rot; split_eq; units_leaf.
+Ltac units_leaf := zeros; whole_turns; rewrite ?rad_0, ?cos_0, ?sin_0; val_eq; ring.
+Ltac units_proof := unfold Rx, Ry, Rz; unfold_rot; split_eq; units_leaf.
 
 Lemma rotation_deg_y_spec t : C10_rotation_deg_y_R t = Val (Ry (rad t)).
-Proof. unfold C10_rotation_deg_y_R. units_proof. Qed.
+Proof. unfold C10_rotation_deg_y_R. cbv zeta. fold_rad t. units_proof. Qed.
 Lemma rot_seq_xz_spec a b : C10_rot_seq_xz_R a b = Val (mmul3 (Rx a) (Rz b)).
 Proof. unfold C10_rot_seq_xz_R. seq_proof. Qed.
 Lemma rot_seq_deg_xz_spec a b : C10_rot_seq_deg_xz_R a b = Val (mmul3 (Rx (rad a)) (Rz (rad b))).
-Proof. unfold C10_rot_seq_deg_xz_R. units_proof. Qed.
+Proof. unfold C10_rot_seq_deg_xz_R. cbv zeta. fold_rad a. fold_rad b. units_proof. Qed.
 Lemma rot_seq_deg_zyx_spec a b c : C10_rot_seq_deg_zyx_R a b c = Val (mmul3 (Rz (rad a)) (mmul3 (Ry (rad b)) (Rx (rad c)))).
-Proof. unfold C10_rot_seq_deg_zyx_R. units_proof. Qed.
+Proof. unfold C10_rot_seq_deg_zyx_R. cbv zeta. fold_rad a. fold_rad b. fold_rad c. units_proof. Qed.
 
 Lemma rpy2q_deg_is_rpy2q_rad r p y : C10_rpy2q_deg_R r p y = C10_rpy2q_R (rad r) (rad p) (rad y).
-Proof. unfold C10_rpy2q_deg_R, C10_rpy2q_R, rad. cbv zeta. first [reflexivity | val_eq; repeat f_equal; field]. Qed.
+Proof. unfold C10_rpy2q_deg_R, C10_rpy2q_R. cbv zeta. fold_rad r. fold_rad p. fold_rad y. reflexivity. Qed.
 
 Definition scale_out (k : R) (o : outcome R) : outcome R :=
   match o with Val l => Val (map (fun v => v * k) l) | Raise e => Raise e end.
@@ -36,10 +48,7 @@ Lemma q2rpy_deg_is_scaled w x y z : C10_q2rpy_deg_R w x y z = scale_out (180 / P
 Proof. unfold C10_q2rpy_deg_R, C10_q2rpy_R, scale_out. cbv zeta. simpl. first [reflexivity | val_eq; ring]. Qed.
 
 Lemma axang2quat_deg_is_rad ax ay az th : C10_axang2quat_deg_R ax ay az th = C10_axang2quat_R ax ay az (rad th).
-Proof.
-  unfold C10_axang2quat_deg_R, C10_axang2quat_R, rad. cbv zeta.
-  replace (th / 2 * (1 / 180 * PI)) with (th * (1 / 180 * PI) / 2) by field. reflexivity.
-Qed.
+Proof. unfold C10_axang2quat_deg_R, C10_axang2quat_R. cbv zeta. fold_rad th. reflexivity. Qed.
 
 Example units_nonvacuous : rad 180 = PI /\ e (Ry (rad 90)) 2 = 1.
 Proof.
